@@ -52,13 +52,13 @@ pub fn nat_bitop(a: &BigInt, b: &BigInt, op: u8) -> BigInt {
 }
 pub fn f_mask(p: &BigInt) -> BigInt { pow2(bitlen(p)) - 1 }
 pub fn shl0(a: &BigInt, k: &BigInt, p: &BigInt) -> Option<BigInt> {
+    if k >= &BigInt::from(bitlen(p)) { return Some(BigInt::zero()); } // every bit leaves the mask (lemma_shl_overflow)
     let k = k.to_usize()?;
-    if k >= bitlen(p) { return Some(BigInt::zero()); } // every bit leaves the mask (lemma_shl_overflow)
     Some(emod(&nat_bitop(&(a * pow2(k)), &f_mask(p), 0), p))
 }
 pub fn shr0(a: &BigInt, k: &BigInt, p: &BigInt) -> Option<BigInt> {
+    if k >= &BigInt::from(bitlen(p)) { return Some(BigInt::zero()); }
     let k = k.to_usize()?;
-    if k >= bitlen(p) { return Some(BigInt::zero()); }
     Some(ediv(a, &pow2(k)))
 }
 pub fn k_eff(k: &BigInt, p: &BigInt) -> BigInt { if k <= &(p / 2) { k.clone() } else { p - k } }
